@@ -1,5 +1,26 @@
 """C12 — results are deterministic: same inputs, same output, on every run."""
+import os
+import framework as fw
+import repeat_stream
 from props.common_prog import judge_prog
+
+_binary = {}
+
+
+def pygen_repeat(seed, count, outfile):
+    if "b" not in _binary:
+        ok, out, b = fw.build_binary()
+        if not ok:
+            raise RuntimeError("cargo build of /repo failed: " + out[-1500:])
+        _binary["b"] = b
+    repeat_stream.generate(_binary["b"], seed, count, outfile, os.path.join(fw.BUILD, "repeat-work-%d" % os.getpid()))
+
+
+def judge_repeat(req, impl, model, spec):
+    ok = impl == "same"
+    return {"corr": True, "oracle": ok, "key": req, "cats": [req.split("(prog ")[1].split(")")[0] + "/" + req.split("(mode ")[1].split(")")[0]],
+            "what": "" if ok else "the same file and image gave different exit status or standard output on different runs: " + impl}
+
 
 THEOREM_MODULES = ["Hcl.Theorems.C12", "Hcl.Theorems.C12Reorder", "Hcl.Theorems.C12Rename", "Hcl.Tie.PinsBuild"]
 THEOREMS = {"Hcl.Theorems.C12Rename": ["C12_rename_verdict", "C12_rename_exact", "C12_rename_cycle", "C12_rename_run", "Program_new_rename_report", "topologicalSort_rename"],
@@ -18,7 +39,7 @@ RULE = ("S-PROG (all profiles) and the fault/loop-injection streams with every p
         "each build with fresh random hash seeds in every internal table: all runs must give identical results (every wire "
         "value, register, memory byte and status of every cycle; for rejected programs the same multiset of diagnostic "
         "kinds and names, loop contents excepted); the number of distinct schedules actually observed per program is "
-        "recorded; the multi-fault stream plants two or three independent faulty expressions, all of which every build must report. S-REORDER: every generated program (one in five with an injected fault) is also run with its statements shuffled and with every declared wire and constant renamed (ASCII, upper-case and non-ASCII names): acceptance, the diagnostics (kinds and names; kinds only under renaming), and every wire value, register, memory byte and status of every cycle must be the same up to the renaming. S-DUMP: the printed state of designs with up to six register banks (several with letters outside PFDEMW, which the code keeps in hash maps) is compared with the one text the model prints. distinct = distinct program texts; non-trivial = programs for which at least two different schedules or "
+        "recorded; the multi-fault stream plants two or three independent faulty expressions, all of which every build must report. S-REORDER: every generated program (one in five with an injected fault) is also run with its statements shuffled and with every declared wire and constant renamed (ASCII, upper-case and non-ASCII names): acceptance, the diagnostics (kinds and names; kinds only under renaming), and every wire value, register, memory byte and status of every cycle must be the same up to the renaming. S-REPEAT: the real binary twelve times (fresh hash seeds per process) on an accepted, a multi-bank, a rejected and two aborting programs in the default, -q and -t modes: exit status and standard output must be byte-identical. S-DUMP: the printed state of designs with up to six register banks (several with letters outside PFDEMW, which the code keeps in hash maps) is compared with the one text the model prints. distinct = distinct program texts; non-trivial = programs for which at least two different schedules or "
         "a rejection were observed.")
 
 
@@ -48,6 +69,7 @@ def streams(tier, seed):
     out.append({"name": "prog-fault", "stream": "prog-fault", "count": 400 if q else 15000, "judge": judge})
     out.append({"name": "prog-loop", "stream": "prog-loop", "count": 400 if q else 15000, "judge": judge})
     out.append({"name": "prog-multi", "stream": "prog-multi", "count": 300 if q else 10000, "judge": judge})
+    out.append({"name": "repeat", "stream": "repeat", "count": 30 if q else 600, "pygen": pygen_repeat, "judge": judge_repeat})
     out.append({"name": "reorder", "stream": "reorder", "count": 400 if q else 20000, "judge": judge_reorder})
     # printed output: the state dump of designs with up to six register banks (letters outside P F D E M W included)
     # must be the one deterministic text the model prints (fixed bank order, sorted letters for the rest)
